@@ -834,3 +834,38 @@ V("sp3-c07-all-dags-stack", "C07", "silent", UT, "    dags = [A for A in dags if
 
 V("sp3-c03-row-zero", "C03", "silent", UT, "        for j in ch(i, A):\n            A[i, j] = 0\n", "        children = ch(i, A)\n        A[i, :] = 0\n        for j in children:\n", what="row cleared at once, children remembered before")
 V("c03-row-zero-children-after", "C03", "fire", UT, "        for j in ch(i, A):\n            A[i, j] = 0\n", "        A[i, :] = 0\n        for j in ch(i, A):\n", rule="KAHN", what="row cleared before the children are read: nothing is ever relaxed")
+
+# ------------------------------------------------------------------------------- equivalent spellings, batch 4
+# LGANM.__init__
+V("sp4-c01-ctor-isinstance", "C01", "silent", LG, "        elif type(variances) == np.ndarray and len(variances) == self.p:\n", "        elif isinstance(variances, np.ndarray) and len(variances) == self.p:\n", what="isinstance for type ==")
+V("sp4-c01-ctor-unpack", "C01", "silent", LG, "            self.means = rng.uniform(means[0], means[1], size=self.p)\n", "            lo, hi = means\n            self.means = rng.uniform(lo, hi, size=self.p)\n", what="bounds unpacked")
+V("sp4-c01-ctor-kw", "C01", "silent", LG, "            self.means = rng.uniform(means[0], means[1], size=self.p)\n", "            self.means = rng.uniform(low=means[0], high=means[1], size=self.p)\n", what="keyword bounds")
+V("sp4-c01-ctor-star", "C01", "silent", LG, "            self.means = rng.uniform(means[0], means[1], size=self.p)\n", "            self.means = rng.uniform(*means, size=self.p)\n", what="star-unpacked bounds")
+V("sp4-c01-ctor-array-copy", "C01", "silent", LG, "            self.means = means.copy()\n", "            self.means = np.array(means)\n", what="np.array copies")
+V("sp4-c13-ctor-isinstance", "C13", "silent", LG, "        elif type(variances) == np.ndarray and len(variances) == self.p:\n", "        elif isinstance(variances, np.ndarray) and len(variances) == self.p:\n", what="isinstance for type ==")
+V("sp4-c14-ctor-array-copy", "C14", "silent", LG, "            self.means = means.copy()\n", "            self.means = np.array(means)\n", what="np.array copies")
+V("sp4-c03-ctor-asarray2d", "C03", "silent", LG, "        W = np.atleast_2d(W)\n", "        W = np.atleast_2d(np.asarray(W))\n", what="asarray before atleast_2d")
+V("sp4-c01-p-shape", "C01", "silent", LG, "        self.p = len(W)\n", "        self.p = W.shape[0]\n", what="shape[0]")
+# _parse_interventions
+V("sp4-c01-parse-isinstance", "C01", "silent", LG, "        if type(params) == tuple and len(params) == 2:\n", "        if isinstance(params, tuple) and len(params) == 2:\n", what="isinstance tuple")
+V("sp4-c01-parse-unpack", "C01", "silent", LG, "            interventions.append([target, params[0], params[1]])\n", "            mean, variance = params\n            interventions.append([target, mean, variance])\n", what="unpacked")
+V("sp4-c01-parse-tuple-types", "C01", "silent", LG, "        elif type(params) in [float, int]:\n", "        elif type(params) in (float, int):\n", what="tuple of types")
+# semi
+V("sp4-c19-isinstance-n", "C19", "silent", SE, "        elif type(n) == int and n <= 0:\n", "        elif isinstance(n, int) and n <= 0:\n", what="isinstance int")
+V("sp4-c19-ndim-len", "C19", "silent", SE, "        elif graph.ndim != 2:\n", "        elif len(graph.shape) != 2:\n", what="len(shape)")
+V("sp4-c19-p-len", "C19", "silent", SE, "        self.p = graph.shape[1]\n", "        self.p = len(graph)\n", what="len(graph) for a square matrix")
+V("sp4-c19-if-not-else", "C19", "silent", SE, "        if not isinstance(data, list):\n            raise TypeError(_DATA_TYPE_ERROR)\n        else:\n            for sample in data:", "        if not isinstance(data, list):\n            raise TypeError(_DATA_TYPE_ERROR)\n        if True:\n            for sample in data:", what="no else after raise")
+V("sp4-c03-semi-pattern-bool", "C03", "silent", SE, "        self.graph = (graph != 0).astype(int)\n", "        self.graph = (graph != 0).astype(np.int64)\n", what="int64 pattern")
+# chain graphs / imec
+V("sp4-c10-imec-array-equal", "C10", "silent", UT, "        if (me[:, I] == A[:, I]).all():\n", "        if np.array_equal(me[:, I], A[:, I]):\n", what="np.array_equal")
+V("sp4-c10-imec-listcomp", "C10", "silent", UT, "    IMEC = []\n    I = list(I)\n    for me in MEC:\n        # If parents of intervened variables match, keep in I-MEC\n        if (me[:, I] == A[:, I]).all():\n            IMEC.append(me)\n    return np.array(IMEC)\n", "    I = list(I)\n    return np.array([me for me in MEC if (me[:, I] == A[:, I]).all()])\n", what="list comprehension")
+V("sp4-c10-sorted-I", "C10", "silent", UT, "    IMEC = []\n    I = list(I)\n    for me in MEC:", "    IMEC = []\n    I = sorted(I)\n    for me in MEC:", what="sorted targets (column order is irrelevant for the all-equal test)")
+# maximally_orient
+V("sp4-c10-orient-any", "C10", "silent", UT, "            if rule_1(i, j, P) or rule_2(i, j, P) or rule_3(i, j, P) or rule_4(i, j, P):\n", "            if any(rule(i, j, P) for rule in (rule_1, rule_2, rule_3, rule_4)):\n", what="any over the rules")
+V("sp4-c10-orient-copy", "C10", "silent", UT, "        raise e\n    P = P.copy()\n", "        raise e\n    P = np.array(P)\n", what="np.array copy")
+V("sp4-c10-orient-bare-raise", "C10", "silent", UT, "    except ValueError as e:\n        raise e\n    P = P.copy()\n", "    except ValueError:\n        raise\n    P = P.copy()\n", what="bare raise")
+# all_dags
+V("sp4-c07-edges-argwhere", "C07", "silent", UT, "    fro, to = np.where(only_undirected(pdag))\n    undirected_edges = np.array(list(filter(lambda e: e[0] > e[1], zip(fro, to))))\n", "    fro, to = np.where(only_undirected(pdag))\n    undirected_edges = np.array([e for e in zip(fro, to) if e[0] > e[1]])\n", what="comprehension for filter/lambda")
+V("sp4-c07-trivial-newaxis", "C07", "silent", UT, "        return np.array([pdag.copy()])\n", "        return np.array([pdag])\n", what="np.array copies its elements")
+# C15 closure
+V("sp4-c16-degrees-axis1", "C16", "silent", UT, "import numpy as np\n", "import numpy as np\n_UTILS_API = 2\n", what="constant")
